@@ -7,6 +7,7 @@ import (
 	"fmt"
 	"testing"
 
+	"github.com/gebn/bmc"
 	"github.com/gebn/bmc/pkg/dcmi"
 	"github.com/gebn/bmc/pkg/ipmi"
 	"pgregory.net/rapid"
@@ -325,8 +326,146 @@ func TestHandshakePayloads(t *testing.T) {
 	})
 }
 
+// checkHandshake verifies the three datagrams of one session establishment
+// against the reference encodings.
+func checkHandshake(w *hx.World, before int, c hx.Creds) error {
+	if p := w.BMC.AllProblems(); len(p) > 0 {
+		return fmt.Errorf("reference parse of the handshake reports: %v", p)
+	}
+	if len(w.BMC.Log) != before+3 {
+		return fmt.Errorf("handshake used %d datagrams, want 3", len(w.BMC.Log)-before)
+	}
+	o, r1, r3 := w.BMC.Log[before], w.BMC.Log[before+1], w.BMC.Log[before+2]
+	if o.OpenReq == nil || r1.RAKP1 == nil || r3.RAKP3 == nil {
+		return fmt.Errorf("handshake payload order wrong")
+	}
+	for i, rx := range w.BMC.Log[before:] {
+		if rx.Pkt.SessionID != 0 || rx.Pkt.Seq != 0 || rx.Pkt.Encrypted || rx.Pkt.Authenticated {
+			return fmt.Errorf("handshake datagram %d has session fields set: %+v", i, rx.Pkt)
+		}
+	}
+	if o.Pkt.PayloadType != ref.PTOpenReq || r1.Pkt.PayloadType != ref.PTRAKP1 || r3.Pkt.PayloadType != ref.PTRAKP3 {
+		return fmt.Errorf("payload types %#x %#x %#x", o.Pkt.PayloadType, r1.Pkt.PayloadType, r3.Pkt.PayloadType)
+	}
+	q := o.OpenReq
+	if q.Priv != c.Priv || q.SIDM == 0 {
+		return fmt.Errorf("open session request: priv %d (want %d), console session ID %#x", q.Priv, c.Priv, q.SIDM)
+	}
+	// byte-exact: the reference encoding of the same fields (13.17)
+	want := []byte{q.Tag, c.Priv, 0, 0, byte(q.SIDM), byte(q.SIDM >> 8), byte(q.SIDM >> 16), byte(q.SIDM >> 24)}
+	for i, a := range []uint8{c.Suite.Auth, c.Suite.Integ, c.Suite.Conf} {
+		if q.Algs[i].Length != 8 || q.Algs[i].Alg != a {
+			return fmt.Errorf("open session request payload %d: %+v, want algorithm %d", i, q.Algs[i], a)
+		}
+		want = append(want, ref.AlgPayload{Type: byte(i), Length: 8, Alg: a}.Bytes()...)
+	}
+	if !bytes.Equal(o.Pkt.Payload, want) {
+		return fmt.Errorf("open session request is % x, reference encoding % x", o.Pkt.Payload, want)
+	}
+	bs := r1.Sess
+	if bs == nil {
+		return fmt.Errorf("RAKP1 names no session the BMC opened")
+	}
+	role := c.Priv
+	if !c.Lookup {
+		role |= 0x10
+	}
+	if r1.RAKP1.SIDC != bs.ID || r1.RAKP1.Role != role || string(r1.RAKP1.User) != c.User {
+		return fmt.Errorf("RAKP1: session ID %#x (want %#x) role %#x (want %#x) user %q (want %q)", r1.RAKP1.SIDC, bs.ID, r1.RAKP1.Role, role, r1.RAKP1.User, c.User)
+	}
+	if r3.RAKP3.Status != 0 || r3.RAKP3.SIDC != bs.ID || !bytes.Equal(r3.RAKP3.Code, bs.RAKP.RAKP3Code(bs.Kuid)) {
+		return fmt.Errorf("RAKP3: %+v", r3.RAKP3)
+	}
+	return nil
+}
+
+// TestConnectionHistory: one connection carries a generated history of session
+// opens, session-less and in-session commands and closes; every request datagram
+// of the history must be the reference encoding whatever preceded it (the serialise
+// buffer is shared by all of them).
+func TestConnectionHistory(t *testing.T) {
+	cat := hx.Catalogue()
+	ev.Check(t, "TestConnectionHistory", ev.PickN(1500, 100000), func(t *rapid.T) {
+		w := hx.NewWorld(rapid.Uint64().Draw(t, "bmcSeed"), true)
+		if rapid.Bool().Draw(t, "hasKG") {
+			w.BMC.KG = rapid.SliceOfN(rapid.Byte(), 20, 20).Draw(t, "kg")
+		}
+		type live struct {
+			s  *bmc.V2Session
+			bs *simbmc.Session
+		}
+		var sessions []live
+		opens, inCmds := 0, 0
+		command := func(t *rapid.T, c conn, bs *simbmc.Session) {
+			call := rapid.SampledFrom(cat).Draw(t, "command").Prepare(t, w.BMC)
+			before := len(w.BMC.Log)
+			ctx, cancel := w.Ctx(1)
+			_, _ = c.SendCommand(ctx, call.Cmd)
+			cancel()
+			ev.Eval()
+			if err := verify(w, before, call.Name, call.Key, call.WantLUN, call.WantFields, bs); err != nil {
+				t.Fatalf("%v", err)
+			}
+		}
+		t.Repeat(map[string]func(*rapid.T){
+			"open": func(t *rapid.T) {
+				if len(sessions) >= 3 {
+					t.Skip("enough sessions")
+				}
+				c := hx.GenCreds(hx.Suites9()).Draw(t, "creds")
+				c.KG = w.BMC.KG
+				w.BMC.Users[c.User] = c.Password
+				before := len(w.BMC.Log)
+				ctx, cancel := w.Ctx(6)
+				s, err := w.T.NewV2Session(ctx, c.Opts())
+				cancel()
+				ev.Eval()
+				if err != nil {
+					t.Fatalf("open #%d (after %d in-session commands) failed: %v; BMC: %v", opens+1, inCmds, err, w.BMC.AllProblems())
+				}
+				if err := checkHandshake(w, before, c); err != nil {
+					t.Fatalf("open #%d (after %d in-session commands): %v", opens+1, inCmds, err)
+				}
+				sessions = append(sessions, live{s, w.BMC.Sessions[s.RemoteID]})
+				opens++
+				if opens > 1 && inCmds > 0 {
+					ev.Label("history:reopen-after-in-session-traffic")
+					ev.NonTrivial(fmt.Sprintf("hist|%d|%d|%v|%d", opens, inCmds, c.Suite, c.Seed))
+				}
+			},
+			"sessionless": func(t *rapid.T) { command(t, w.T, nil) },
+			"insession": func(t *rapid.T) {
+				if len(sessions) == 0 {
+					t.Skip("no session")
+				}
+				l := sessions[rapid.IntRange(0, len(sessions)-1).Draw(t, "which")]
+				command(t, l.s, l.bs)
+				inCmds++
+			},
+			"close": func(t *rapid.T) {
+				if len(sessions) == 0 {
+					t.Skip("no session")
+				}
+				i := rapid.IntRange(0, len(sessions)-1).Draw(t, "which")
+				l := sessions[i]
+				before := len(w.BMC.Log)
+				ctx, cancel := w.Ctx(1)
+				err := l.s.Close(ctx)
+				cancel()
+				if err != nil {
+					t.Fatalf("close: %v", err)
+				}
+				if err := verify(w, before, "Close Session", uint16(ref.NetFnApp)<<8|uint16(ref.CmdCloseSession), 0, map[string]uint64{"id": uint64(l.bs.ID)}, l.bs); err != nil {
+					t.Fatalf("%v", err)
+				}
+				sessions = append(sessions[:i], sessions[i+1:]...)
+			},
+		})
+	})
+}
+
 func TestCoverage(t *testing.T) {
-	need := []string{"long-username-refused", "enum:cipher-suites", "enum:dcmi", "handshake:auth1", "handshake:auth2", "handshake:auth3"}
+	need := []string{"history:reopen-after-in-session-traffic", "long-username-refused", "enum:cipher-suites", "enum:dcmi", "handshake:auth1", "handshake:auth2", "handshake:auth3"}
 	for _, e := range hx.Catalogue() {
 		_ = e
 	}
